@@ -327,6 +327,12 @@ def verify(ctx, spec, check_sites, rule, min_sites=0, extra_post=None, collect=N
                             fld = fn.field_name(fn.strip(fn.call_object(c0)))
                             if fld in spec.extents and len(spec.extents[fld]) == 1:
                                 ptr_alias[d['var']] = fld
+                            else:
+                                # data() of a parameter whose extent is declared by the contract (a stated precondition)
+                                o_ = fn.strip(fn.call_object(c0))
+                                if o_ is not None and o_['k'] == 'DeclRefExpr' and o_.get('var') in fn.params and \
+                                        len(lext.get(fn.locals[o_['var']]['name'], [])) == 1:
+                                    ptr_alias[d['var']] = '%local:' + fn.locals[o_['var']]['name']
         for x in fn.walk():
             if x['k'] in ('BinaryOperator', 'CompoundAssignOperator', 'UnaryOperator') and x.get('op') in ('=', '+=', '-=', '++', '--'):
                 t = fn.strip(fn.nodes[x['c'][0]])
@@ -341,6 +347,8 @@ def verify(ctx, spec, check_sites, rule, min_sites=0, extra_post=None, collect=N
             if f is None and bs['k'] == 'DeclRefExpr' and bs.get('var') in ptr_alias:
                 f = ptr_alias[bs['var']]
             dims = spec.extents.get(f)
+            if dims is None and isinstance(f, str) and f.startswith('%local:'):
+                dims = lext.get(f[7:])
             if dims is None and bs['k'] == 'DeclRefExpr' and 'var' in bs:
                 if bs['var'] in lext_forms:
                     return lext_forms[bs['var']]
